@@ -112,6 +112,8 @@ Fixpoint dec_sch (fuel : nat) (x : sexp) : option sch :=
     | Atom "boolean" => Some (ScType "boolean")
     | Atom "number" => Some (ScType "number")
     | Atom "string" => Some (ScType "string")
+    | Atom "array" => Some (ScArray [] None)
+    | Atom "object" => Some (ScObject [] None)
     | SList [Atom "array"; SList prefix; items] =>
         match map_opt (dec_sch f) prefix with
         | Some p => match items with
